@@ -124,12 +124,15 @@ OrderLists ==
     ELSE {<<>>, <<PK>>, <<PW>>, <<KBD, PW>>, <<PW, PK>>, <<PK, KBD, PW>>, <<PW, KBD, PK>>,
           <<GSS, HB, PK, KBD, PW>>, <<UNK, PW, PK>>}
 OrderKeys == {<<>>, <<Item("l1", "ed", "-", TRUE, "yes")>>, <<Item("l1", "ed", "-", FALSE, "yes")>>}
+AllOn == [pk |-> TRUE, kbd |-> TRUE, pw |-> TRUE]
+PkOff == [pk |-> FALSE, kbd |-> TRUE, pw |-> TRUE]
 SecOrder ==
-    {[Cfg0 EXCEPT !.sec = "order", !.prefDefault = (p = <<"*">>),
-                  !.pref = IF p = <<"*">> THEN <<>> ELSE p,
-                  !.local = k, !.pw = w, !.app = a, !.srv.list0 = l] :
-        p \in OrderPrefs, l \in OrderLists, k \in OrderKeys, w \in PW3,
-        a \in IF Big THEN PW3 ELSE {"none", "wrong"}}
+    {c \in {[Cfg0 EXCEPT !.sec = "order", !.prefDefault = (p = <<"*">>),
+                         !.pref = IF p = <<"*">> THEN <<>> ELSE p, !.flags = f,
+                         !.local = k, !.pw = w, !.app = a, !.srv.list0 = l] :
+               p \in OrderPrefs, l \in OrderLists, k \in OrderKeys, w \in PW3,
+               a \in IF Big THEN PW3 ELSE {"none", "wrong"}, f \in {AllOn, PkOff}} :
+        c.flags = AllOn \/ (c.prefDefault /\ c.local # <<>> /\ c.app = "none")}
 
 \* -- "keys": agent key pairs and client_keys entries of every kind
 AKinds == {<<"plain", TRUE, "yes">>, <<"plain", FALSE, "yes">>, <<"cert", TRUE, "yes">>,
@@ -169,7 +172,6 @@ SecRsa ==
 \* -- "kbd": keyboard-interactive prompts, the password fallback, password change, disabled methods
 KbdRoundSets == {<<"pw">>, <<"otp">>, <<"two">>, <<"empty", "pw">>, <<"pw", "otp">>,
                  <<"pw", "pw">>, <<"empty">>}
-AllOn == [pk |-> TRUE, kbd |-> TRUE, pw |-> TRUE]
 KbdQuick(c) ==      \* the quick slice
     /\ c.flags = AllOn \/ (c.prefDefault /\ c.srv.pwReply = "normal" /\ c.app # "right")
     /\ c.srv.pwReply = "normal" \/ (c.srv.kbdSecret = "same" /\ c.app # "wrong")
